@@ -341,5 +341,5 @@ def run_check(prop, tier, module, explanation, assumptions, level="other", extra
     with open(evidence_path, "w") as fh:
         json.dump(ev, fh, indent=1)
     print("[%s] tier=%s obligations=%d holds=%d violated=%d (known=%d) bodies_analysed=%d wall=%.1fs" % (
-        prop, tier, len(all_obl), len(holds), len(all_viol), len(all_viol) - len(new_viol), len(analysed), time.time() - t0))
+        prop, tier, len(all_obl), len(holds), len(all_viol), len([v for v in all_viol if (prop, v["key"]) in known]), len(analysed), time.time() - t0))
     return 1 if new_viol else 0
